@@ -607,6 +607,8 @@ def number_of_fibers(plate, **kwargs):
     #
     if 'path' in kwargs:
         platelistpath = os.path.join(kwargs['path'], 'platelist.fits')
+    elif 'topdir' in kwargs:
+        platelistpath = os.path.join(kwargs['topdir'], 'platelist.fits')
     else:
         platelistpath = os.path.join(os.environ['BOSS_SPECTRO_REDUX'], 'platelist.fits')
     platelist = fits.open(platelistpath)
@@ -944,7 +946,8 @@ def readspec(platein, mjd=None, fiber=None, **kwargs):
         if 'path' in kwargs:
             sppath = [kwargs['path']]
         else:
-            sppath = spec_path(thisplate, run2d=run2d)
+            sppath = spec_path(thisplate, topdir=kwargs.get('topdir'),
+                               run2d=run2d)
         spfile = os.path.join(sppath[0], "spPlate-{0}.fits".format(pmjdstr))
         log.info(spfile)
         spplate = fits.open(spfile)
